@@ -369,8 +369,9 @@ func c09Exec(line string) string {
 
 // ------------------------------------------------------------------------------------- gen
 
-var c09AIds = []string{"a1", "a2", "a3", "a4"}
-var c09BIds = []string{"b1", "b2", "b3"}
+// a1/a11 and b1/b11 are in a strict prefix relation: a presence probe that matches a prefix is caught
+var c09AIds = []string{"a1", "a2", "a3", "a11"}
+var c09BIds = []string{"b1", "b2", "b3", "b11"}
 var c09GhostA = "a9"
 var c09GhostB = "b9"
 var c09Names = []string{"n1", "n2", "n3", "n4", "n5"}
@@ -584,7 +585,7 @@ func c09EmitCase(out *bufio.Writer, mode string, history, corrupt []string) {
 	fmt.Fprintf(out, "%s @H %s @C %s @S %s\n", mode, strings.Join(history, ";"), strings.Join(corrupt, ";"), st)
 }
 
-// the fixed 6-entity state of the thorough tier
+// the fixed state of the thorough tier (4 things, 4 owners)
 var c09FixedHistory = []string{
 	"cB " + toWire("b1") + " " + toWire("l1"),
 	"cB " + toWire("b2") + " ~",
@@ -592,7 +593,11 @@ var c09FixedHistory = []string{
 	"cA " + toWire("a1") + " " + toWire("n1") + " " + toWire("x1") + " " + c09List([]string{"r1", "r2"}) + " " + toWire("b1") + " " + toWire("b1") + " " + toWire("b2") + " " + toWire("b1") + " ~",
 	"cA " + toWire("a2") + " " + toWire("n2") + " ~ " + c09List([]string{"r2"}) + " " + toWire("b1") + " " + toWire("b2") + " ~ " + toWire("b2") + " " + toWire("a1"),
 	"cA " + toWire("a3") + " " + toWire("n3") + " " + toWire("x2") + " " + c09List([]string{"r11"}) + " ~ " + toWire("b2") + " " + toWire("b3") + " " + toWire("b3") + " " + toWire("a1"),
-	"lA " + toWire("a1") + " " + c09List([]string{"b1", "b2"}),
+	"cB " + toWire("b11") + " ~",
+	// a11 shares every list with a1 (role r1, owner / home b1, boss a1, member of b1): ids in a prefix relation
+	"cA " + toWire("a11") + " " + toWire("n4") + " ~ " + c09List([]string{"r1"}) + " " + toWire("b1") + " " + toWire("b1") + " ~ " + toWire("b1") + " " + toWire("a1"),
+	"lA " + toWire("a1") + " " + c09List([]string{"b1", "b11", "b2"}),
+	"lA " + toWire("a11") + " " + c09List([]string{"b1"}),
 	"lA " + toWire("a2") + " " + c09List([]string{"b2"}),
 	"lB " + toWire("b3") + " " + c09List([]string{"a3"}),
 }
@@ -610,7 +615,8 @@ func c09FixedCatalogue() []string {
 		"UP things.alias " + w("x3") + " " + w("a2"), // nullable unique: extra
 		"UP owners.label " + w("l1") + " " + w("b2"), // second store: wrong target
 		"SD things.roles " + w("r2") + " " + w("a1"), // set index: missing entry
-		"SD things.roles " + w("r1") + " " + w("a1"), // set index: missing entry, leaves an empty value bucket
+		"SD things.roles " + w("r1") + " " + w("a1"), // set index: missing entry, the longer sibling id a11 stays
+		"SD things.roles " + w("r11") + " " + w("a3"), // set index: missing entry, leaves an empty value bucket
 		"SX things.roles " + w("r2"),                 // missing key
 		"SA things.roles " + w("r1") + " " + w("a3"), // extra entry (existing entity without the value)
 		"SA things.roles " + w("r2") + " " + w("a9"), // extra entry (missing entity)
@@ -618,7 +624,10 @@ func c09FixedCatalogue() []string {
 		"SK things.roles " + w("zy"),                 // extra key, empty value bucket
 		"SJ things.roles " + w("q"),                  // plain junk key
 		"SJ things.roles " + w("r10"),                // plain junk key between value buckets
-		"ED owners " + w("b1") + " things " + w("a1"),    // fk: missing back-reference
+		"ED owners " + w("b1") + " things " + w("a1"),    // fk: missing back-reference (a11 stays in the list)
+		"ED owners " + w("b1") + " residents " + w("a1"), // non-nullable fk: missing back-reference (a11 stays)
+		"ED owners " + w("b1") + " members " + w("a1"),   // one-sided: reverse deleted (a11 stays)
+		"ED things " + w("a1") + " groups " + w("b1"),    // one-sided: forward deleted (b11 stays)
 		"EA owners " + w("b2") + " things " + w("a1"),    // fk: extra back-reference (entity refers elsewhere)
 		"EA owners " + w("b1") + " things " + w("a9"),    // fk: extra back-reference to a missing entity
 		"EA owners " + w("b1") + " things " + w("a3"),    // fk: extra back-reference, field is nil
